@@ -192,10 +192,22 @@ def centralOK (n order : ℕ) : Bool :=
   momentsOK ((posTable n order).getD 0 []) ((coeffTable n order).getD 0 []) n
     ((posTable n order).getD 0 []).length
 
-/-- every one-sided row (row ≥ 1) violates the moment condition of degree `#points`. -/
+/-- every one-sided row (row index ≥ 1) violates the moment condition of degree `#points`
+(which would have to be `0` because `#points > n`). -/
 def oneSidedTight (n order : ℕ) : Bool :=
-  (((posTable n order).zip (coeffTable n order)).drop 1).all fun r =>
-    decide (momentSum r.1 r.2 r.1.length ≠ 0)
+  (List.range (posTable n order).length).all fun r =>
+    r == 0 || decide (momentSum ((posTable n order).getD r []) ((coeffTable n order).getD r [])
+      ((posTable n order).getD r []).length ≠ 0)
+
+theorem oneSidedTight_row {n order : ℕ} (hT : oneSidedTight n order = true) {r : ℕ}
+    (hr : r < (posTable n order).length) (hr1 : 1 ≤ r) :
+    momentSum ((posTable n order).getD r []) ((coeffTable n order).getD r [])
+      ((posTable n order).getD r []).length ≠ 0 := by
+  unfold oneSidedTight at hT
+  rw [List.all_eq_true] at hT
+  have := hT r (List.mem_range.mpr hr)
+  have hr0 : ¬ r = 0 := by omega
+  simpa [hr0] using this
 
 theorem pyIndex_lt {m : ℕ} (hm : 0 < m) (i : ℤ) : pyIndex m i < m := by
   unfold pyIndex
@@ -318,5 +330,27 @@ theorem hessEntry_diag (order : ℕ) (f : ℝ → ℝ) (h : ℝ) :
   have : (0 : ℝ) + ((pq.1 + pq.2 : ℚ) : ℝ) * h = (pq.1 : ℝ) * h + (pq.2 : ℝ) * h := by
     push_cast; ring
   rw [this, sq]
+
+/-- one component of `gradient` is the central first-derivative stencil at `x = 0`. -/
+theorem gradComp_eq_applyStencil (order : ℕ) (g : ℝ → ℝ) (h : ℝ) :
+    gradComp cR order g h = applyStencil cR (firstPos0 order) (firstCoeff0 order) g 1 0 h := by
+  unfold gradComp
+  rw [foldl_add_eq_sum, applyStencil_eq_sum]
+  congr 2
+  funext p q
+  rw [pow_one, zero_add]
+
+/-! ### Bounds -/
+
+/-- `y` lies inside the (possibly half-infinite) interval `b`. -/
+def InBounds (b : Bounds ℝ) (y : ℝ) : Prop :=
+  (∀ l, b.lo = some l → l ≤ y) ∧ (∀ u, b.hi = some u → y ≤ u)
+
+-- unfold `positions`/`rowOf`/`offset` and the position tables in hypothesis `hy` and the goal.
+set_option hygiene false in
+macro "pos_unfold" : tactic => `(tactic| (
+  simp only [positions, rowOf, offset, aboveHi, belowLo, posTable, FIRST_DERIV_POS_2,
+    FIRST_DERIV_POS_4, SECOND_DERIV_POS_2, SECOND_DERIV_POS_4, cR, Rat.cast_ofNat,
+    List.length_cons, List.length_nil, InBounds] at hy ⊢))
 
 end Lemmas.Stencil
